@@ -46,6 +46,12 @@ class LoopInvariant:
                 ex.oblige("%s:invariant-preserved:%s" % (self.name, nm), c)
             if v0 is not None:
                 v1 = self.variant(ex, fr)
-                ex.oblige("%s:variant-decreases" % self.name, z3.And(v0 >= 0, v1 < v0))
+                if isinstance(v0, tuple):
+                    # (guard, measure): whenever the guard holds before the iteration it holds after it and the
+                    # measure has decreased (a measure that only exists from some point on, e.g. once both bounds are known)
+                    (g0, m0), (g1, m1) = v0, v1
+                    ex.oblige("%s:variant-decreases" % self.name, z3.Implies(g0, z3.And(g1, m0 >= 0, m1 < m0)))
+                else:
+                    ex.oblige("%s:variant-decreases" % self.name, z3.And(v0 >= 0, v1 < v0))
             raise PathAbort("loop-step-verified")
         ex.exec_block(st.orelse, fr)
